@@ -42,6 +42,11 @@ Definition file_uses (fs : list (list stmt)) (k : nat) : list cvalue :=
 Definition file_err (fs : list (list stmt)) (k : nat) : Z :=
   match file_res fs k with Ok _ => 0 | Err e => err_code e end.
 Definition den_code (r : res Z) : Z := match r with Ok _ => 0 | Err e => err_code e end.
+Definition spec_lex_string (raw : text) : res cvalue :=
+  match spec_unescape raw [] with
+  | LexOk v => Ok (VStr v) | LexInvalidEscape => Err EInvalidEscape | LexIndexError => Err ECrashIndex end.
+Definition spec_lex_bool (sp : text) : res cvalue :=
+  match spec_bool sp with Some b => Ok (VBool b) | None => Err EGrammar end.
 """
 
 LANGS = (("c", "LC"), ("go", "LGo"), ("py", "LPy"))
@@ -168,8 +173,7 @@ def run(ck: Check) -> None:
         names = job["consts"]
         kinds = job["kinds"]
         if stream == "main":
-            vals = _py_values(prog)
-            job["c_whole"] = [n for n in names if kinds.get(n) != "int" or (n in vals and abs(vals[n]) <= C_MAX)]
+            job["c_whole"] = "auto"      # the worker prints every constant whose PARSED value fits the C range
         elif stream == "str-inside":
             job["c_whole"] = []
             job["c_slices"] = [n for n in names if kinds.get(n) == "str"]
@@ -212,6 +216,17 @@ def run(ck: Check) -> None:
             pe = r["parse_error"]
             code = impl_err_code(pe)
             bump("outcome:" + pe["cls"])
+            if not stream.startswith(("error", "divzero")):
+                # a program of the valid stream: the specification accepts it (Coq confirms below
+                # that the model does, or the tie is reported)
+                ck.violation(f"the compiler {'rejected' if pe.get('parser_error') else 'crashed on'} a valid program of "
+                             f"constant declarations: {pe['cls']}: {pe.get('msg', '')[:160]}",
+                             {"program": prog, "files": texts, "origin": origin, "implementation_outcome": pe},
+                             found_input=True)
+                exprs.append(f"(if file_err fs_{i} {last}%nat =? {code} then 0 else 1)")
+                metas.append((i, "outcome", None, None))
+                sh.add("\n".join(defs), exprs, metas)
+                continue
             exprs.append(f"(if file_err fs_{i} {last}%nat =? {code} then 0 else 1)")
             metas.append((i, "outcome", None, None))
             st = [s for s in mf["stmts"] if s["k"] == "const"][-1]
@@ -308,11 +323,26 @@ def run(ck: Check) -> None:
             elif rhs["k"] == "str":
                 raw = G.ccodes(rhs["raw"])
                 # bit0: the escape-loop model on the source spelling = the parsed value
-                exprs.append(f"(if resv_eqb (lex_string {raw}) (Ok {cv}) then 0 else 1)")
+                exprs.append(f"((if resv_eqb (lex_string {raw}) (Ok {cv}) then 0 else 1) + "
+                             f"(if resv_eqb (spec_lex_string {raw}) (Ok {cv}) then 0 else 2))")
                 metas.append((i, "str-lex", nm, None))
                 n_eval += 1
                 distinct.add(("str", bytes(rhs["raw"]).hex()))
                 bump("strings")
+
+            elif rhs["k"] == "bool":
+                sp = G.ccodes(rhs["spelling"].encode())
+                exprs.append(f"((if resv_eqb (lex_bool {sp}) (Ok {cv}) then 0 else 1) + "
+                             f"(if resv_eqb (spec_lex_bool {sp}) (Ok {cv}) then 0 else 2))")
+                metas.append((i, "bool-lex", nm, None))
+                n_eval += 1
+                bump("bools")
+            elif rhs["k"] == "ref":
+                # specification: `const X = Y` gives X the value of Y
+                exprs.append(f"(if optv_eqb (lookup {G.cstr(rhs['ref'])} obsenv_{i}) {cv} then 0 else 2)")
+                metas.append((i, "ref", nm, None))
+                n_eval += 1
+                bump("lone-references")
 
             # ---- emission and read-back, per language ---------------------------------------
             defs.append(f"Definition cv_{i}_{nm} : cvalue := {cv}.")
@@ -343,7 +373,8 @@ def run(ck: Check) -> None:
                     else:
                         observed = r.get(src, {}).get(nm, ["error", "missing"])
                 elif lang == "c":
-                    if nm in (jobs[i]["c_whole"] or []):
+                    in_c_range = kd != "int" or abs(int(v)) <= C_MAX
+                    if jobs[i]["c_whole"] == "auto" and in_c_range:
                         w = r.get("c_whole", {})
                         observed = w["values"].get(nm, ["error", "missing"]) if "values" in w else ["error", w.get("error", "?")]
                     elif nm in (jobs[i]["c_slices"] or []):
@@ -415,6 +446,7 @@ def run(ck: Check) -> None:
         if code & 1:
             tie_bad += 1
             what = {"outcome": "outcome (accepted / error class) of the whole program",
+                    "bool-lex": f"value of boolean constant {nm}",
                     "file-env": f"constant values of file #{nm}", "uses-tie": "array capacities / option values",
                     "calc": f"value of constant {nm}", "str-lex": f"escape decoding of string constant {nm}"}.get(kind, kind)
             ck.broken(Broken(f"tie T2: the model (ConstExpr) and the real parser disagree on the {what} ({origin})",
@@ -438,6 +470,12 @@ def run(ck: Check) -> None:
                 what = f"constant {nm}: the parser's outcome differs from the specified one"
             elif kind == "uses-spec":
                 what = "an array capacity or option value is not the value of the constant it names"
+            elif kind == "str-lex":
+                what = f"string constant {nm}: the parsed value is not what the escapes in the source denote"
+            elif kind == "bool-lex":
+                what = f"boolean constant {nm}: the parsed value is not what the spelling means"
+            elif kind == "ref":
+                what = f"constant {nm} = <reference>: the parsed value is not the value of the referenced constant"
             else:
                 what = f"constant {nm}: the value computed by the parser is not the arithmetic value of the expression"
             ck.violation(what, base, found_input=True, key=key)
@@ -474,29 +512,6 @@ def run(ck: Check) -> None:
 
 
 # ---- helpers --------------------------------------------------------------------------------------
-
-def _py_values(prog) -> Dict[str, int]:
-    """generator-side values of the integer constants of the main file (steering only)"""
-    envs: List[Dict[str, int]] = []
-    for f in prog["files"]:
-        env: Dict[str, int] = {}
-        for s in f["stmts"]:
-            if s["k"] == "import":
-                for k, v in envs[s["file"]].items():
-                    if "." not in k:
-                        env[f"{s['alias']}.{k}"] = v
-            elif s["k"] == "const":
-                r = s["rhs"]
-                try:
-                    if r["k"] == "calc":
-                        env[s["name"]] = G.py_denote(r["expr"], env)
-                    elif r["k"] == "ref" and r["ref"] in env:
-                        env[s["name"]] = env[r["ref"]]
-                except Exception:
-                    pass
-        envs.append(env)
-    return envs[-1]
-
 
 def _decl(r, prog, nm) -> Tuple[str, Any]:
     for n2, kd, v in r["consts"].get(main_file(prog)["name"] + ".bitproto", []):
